@@ -92,6 +92,8 @@ ASSUMPTIONS = [
 ]
 MIN_NONTRIVIAL = 100000
 REQUIRED_COUNTERS = {
+    'c09w_cascades_compared': 100,
+    'c09w_first_cascade_after_a_release_or_new_branch': 20,
     'must_reject_compared': 10000,
     'accept_compared': 10000,
     'targets_compared': 10000,
@@ -432,6 +434,11 @@ def category(exp, got, dst_name):
 
 def run_shard(spec, acc):
     tier, shard, n = spec['tier'], spec['shard'], spec['nshards']
+    if not spec.get('limit'):
+        # system-level companion: a long-lived instance while tags and
+        # destination branches appear between jobs
+        from vf.world import c09_world
+        c09_world.run(spec, acc, 2 if tier == 'quick' else 20)
     kmax = spec.get('kmax', KMAX[tier])
     limit = spec.get('limit')           # timing slices only
     want_cat = shard % len(CATEGORIES)
@@ -453,6 +460,9 @@ def run_shard(spec, acc):
 
 
 def replay(w, acc):
+    if w.get('c09w'):
+        from vf.world import c09_world
+        return c09_world.replay(w, acc)
     exp = oracle.expected(w['branches'], w['tags'], w['dst'])
     try:
         judge(acc, w['mode'], w['branches'], w['tags'], w['dst'], exp)
